@@ -11,7 +11,7 @@ import (
 )
 
 func init() {
-	register("C11", 60, "Decided (for every path of the current source): (R1) every blocking operation reachable from the pipeline drivers and the prefix-hash drivers is classified — a select with a ctx.Done() arm; a receive/range on a channel whose single producer defers close; a send on a buffered channel that is sent at most once; a WaitGroup.Wait whose Done is deferred at the start of the awaited goroutine — anything else is a violation; (R2) every line/binary read of the transfer passes a timeout that comes from getNewTimeout (nil only for timeout<=0 and for the server's wait for ACT), and the buffer's wait has data, stop and timeout arms; (R3) every stage error edge cancels with a cause and the drivers return context.Cause; (R4) handler goroutines route every error to the reporter, which drains input before writing fail; (R5) defer cancel(nil) is registered in the drivers before any stage starts; (R6) a channel is closed only by its sending side. Not decided: wall-clock bounds, global deadlock freedom over all schedules, blocking inside connection writes.",
+	register("C11", 60, "Decided (for every path of the current source): (R1) every blocking operation reachable from the pipeline drivers and the prefix-hash drivers is classified — a select with a ctx.Done() arm; a receive/range on a channel whose single producer defers close; a send on a buffered channel that is sent at most once; a WaitGroup.Wait whose Done is deferred at the start of the awaited goroutine — anything else is a violation; (R2) every line/binary read of the transfer passes a timeout that comes from getNewTimeout (nil only for timeout<=0 and for the server's wait for ACT), and the buffer's wait has data, stop and timeout arms; (R3) every stage error edge cancels with a cause and the drivers return context.Cause; (R4) handler goroutines route every error to the reporter, which drains input before writing fail; (R5) defer cancel(nil) is registered in the drivers before any stage starts; (R6) a channel is closed only by its sending side. Not decided: wall-clock bounds, global deadlock freedom over all schedules, blocking inside connection writes. Added: WaitGroup.Add dominates the go statement; (R8) every mutex is released on every path; (R9) a stage returns only after cancelling, on a cancelled context, or when its per-stage completion condition holds; (R10) size-probing hand-shake (initial size, token released on every init-phase ack); (R11) no loop whose only exit test is loop-invariant.",
 		func(c *Ctx) {
 			c.run("C11-R1", "SELECT-ARM: every blocking operation in the stage family is covered by cancellation or by a closing producer", c11R1)
 			c.run("C11-R2", "WHO-CALLS: every read carries a timeout; the buffer wait has data/stop/timeout arms", c11R2)
